@@ -424,8 +424,11 @@ Definition tour_stop_legs (m : Z -> Z -> Z) (t : stour) : Z :=
   match to_stops t with [] => 0 | st :: r => stop_legs m (ss_loc st) r end.
 
 (* ---- the driver's walk through one stop: he stands at `loc`, free at `time` *)
+(* two location indices that are the same point for the routing data (distance and duration 0 both ways) are not told apart *)
+Definition same_place (P : pproblem) (a b : Z) : bool :=
+  (a =? b) || ((pdist P a b =? 0) && (pdur P a b =? 0) && (pdist P b a =? 0) && (pdur P b a =? 0)).
 Definition fw_ok (P : pproblem) (loc time : Z) (a : fact) (c : commute) : bool :=
-  (cm_loc c =? loc) && (cm_t0 c =? time) && (cm_dist c =? pdist P loc (fa_loc a))
+  same_place P (cm_loc c) loc && (cm_t0 c =? time) && (cm_dist c =? pdist P loc (fa_loc a))
   && (cm_t1 c - cm_t0 c =? pdur P loc (fa_loc a)) && (cm_t1 c <=? fa_start a).
 Definition bw_ok (P : pproblem) (a : fact) (c : commute) : bool :=
   (cm_t0 c =? fa_end a) && (cm_dist c =? pdist P (fa_loc a) (cm_loc c)) && (cm_t1 c - cm_t0 c =? pdur P (fa_loc a) (cm_loc c)).
@@ -438,7 +441,7 @@ Fixpoint walk (P : pproblem) (ret : bool) (k loc time : Z) (items : list (Z * (f
     let bw := match oc with Some (_, b) => b | None => None end in
     let v1 := match fw with
               | Some c => if fw_ok P loc time a c && (if ret then some_b bw else true) then [] else [RCommute k i]
-              | None => if ((fa_loc a =? loc) || (pdist P loc (fa_loc a) =? 0)) && (time <=? fa_start a) then [] else [RCommute k i]
+              | None => if (same_place P (fa_loc a) loc || (pdist P loc (fa_loc a) =? 0)) && (time <=? fa_start a) then [] else [RCommute k i]
               end in
     let v2 := match bw with Some c => if bw_ok P a c then [] else [RCommute k i] | None => [] end in
     let next := match bw with Some c => (cm_loc c, cm_t1 c) | None => (fa_loc a, fa_end a) end in
@@ -455,7 +458,7 @@ Definition stop_walk (P : pproblem) (cfg : option ccfg) (xt : xtour) (k : Z) (t 
    end)
   ++ (let '(vs, fin) := walk P (match cfg with Some c => cc_return c | None => false end) k (ss_loc st)
                              (match park with Some (_, p1) => p1 | None => ss_arr st end) items in
-      vs ++ (if (fst fin =? ss_loc st) && (snd fin =? ss_dep st) then [] else [RStopDeparture k s])).
+      vs ++ (if same_place P (fst fin) (ss_loc st) && (snd fin =? ss_dep st) then [] else [RStopDeparture k s])).
 
 (* ---- R for a tour with clustered stops *)
 Definition commute_time (oc : option (option commute * option commute)) : Z :=
